@@ -16,7 +16,8 @@ INFO = {
                    'translated structure. Lemma 2: for every single-line Unicode text (fixed length per shard) and each concrete pattern of the '
                    'shape family, query_table("select like(a1, <pattern>)") equals the textbook LIKE matcher (two-row tables exercise the regex cache).',
     'bounds': 'patterns: symbolic up to length 5 (lemma 1); concrete shapes of length <= 4 over {%, _, literal} with literals from a b . * \\ [ ( ^ $ + ? | (lemma 2); '
-              'texts: symbolic, no newline, length <= 4 (quick) / <= 5 (thorough)',
+              'texts: symbolic, no newline, length <= 4 (quick) / <= 5 (thorough)'
+        '; class-alphabet texts (9 code points that NFC / NFKC / case folding would change) of length <= 2 (quick) / 3 (thorough) against 15 patterns, both argument roles',
     'outside': 'texts containing a line break (excluded by the property); longer texts/patterns; re.escape(c) for characters outside the enumerated hostile alphabet is trusted to denote c; JS twin',
     'assumptions': ['CrossHair regex model faithful to CPython re for the constructs used (counterexamples replayed on real re)',
                     're.escape is a per-character homomorphism (stdlib)'],
@@ -125,6 +126,30 @@ return (out, [[like_ref(r[0], r[1] + '%%')] for r in rows])
     return Obl('like_computed_pattern[len=%d]' % L, src, timeout=timeout, meta={'query': q, 'bounds': '8 rows, first text of length %d symbolic, patterns chosen per row from {ab%%, b%%, a_%%} by symbolic bools' % L})
 
 
+# code points that some Unicode transformation (NFC / NFKC normalisation, case folding) maps to something else: LIKE compares code points
+UNI_CLASS = (0x65, 0x301, 0xe9, 0xc5, 0x212b, 0x212a, 0x6b, 0xdf, 0x61)
+
+
+def _class_match_obl(pat, L, timeout):
+    """Texts over the class alphabet above, solver-enumerated and concrete per path (unicodedata / str.casefold are C functions the engine
+    cannot model: a symbolic text would be realised to one arbitrary value)."""
+    params = [('n%d' % i, 'int') for i in range(L)] or [('dummy', 'int')]
+    pre = ['n%d in %r' % (i, UNI_CLASS) for i in range(L)] or ['dummy == 0']
+    body = indent('''
+from vf import qh
+t = ''.join([chr(qh.concretize(n, CLASS)) for n in [%s]])
+out = []
+rbql_engine.query_table('select like(a1, a2), like(a2, a1)', [[t, PAT]], out, [])
+return (out, [[like_ref(t, PAT), like_ref(PAT, t)]])
+''' % ', '.join('n%d' % i for i in range(L)))
+    src = harness('PAT = %r\nCLASS = %r\n' % (pat, UNI_CLASS), params, pre, body, extra_defs=REF_SRC)
+    return Obl('like_class[%s,len=%d]' % (pat.encode('unicode_escape').decode(), L), src, timeout=timeout,
+               meta={'query': 'select like(a1, a2), like(a2, a1)', 'pattern': pat, 'bounds': 'every text of length %d over the class alphabet %r; text and pattern both come from cells, each used in both roles' % (L, UNI_CLASS)})
+
+
+CLASS_PATTERNS = ['_', '__', 'e_', '_\u0301', '\xe9', 'e\u0301', '\xc5', '\u212b', '%_', 'e%', 'K', '\u212a', 'ss', '\xdf_', '%\u0301']
+
+
 def patterns(maxlen, seed=0):
     """Every shape of length 1..maxlen over {%, _, literal}; literals rotate through the hostile alphabet."""
     res = ['']
@@ -162,6 +187,10 @@ def obligations(tier, seed):
         obs.append(_match_obl('%', 0, 2, 60))
         obs.append(_where_obl('%b', 3, 90))
         obs.append(_where_obl('[_', 3, 90))
+        for p in CLASS_PATTERNS:
+            obs.append(_class_match_obl(p, 2, 150))
+        for p in CLASS_PATTERNS[:3]:
+            obs.append(_class_match_obl(p, 1, 150))
     else:
         for L in range(0, 6):
             obs.append(_structure_obl(L, 600))
@@ -184,6 +213,9 @@ def obligations(tier, seed):
                 obs.append(_match_obl(p, L, 1, 300))
         for p in ['%b', '[_', 'a%b', '.*', '^a$', 'a|b']:
             obs.append(_where_obl(p, 4, 600))
+        for p in CLASS_PATTERNS:
+            for L in (1, 2, 3):
+                obs.append(_class_match_obl(p, L, 900))
     # names must be unique
     seen = set()
     uniq = []
